@@ -234,10 +234,13 @@ func (i *Inst) RunOidc(s *OiScript, tw *TraceWriter, rng *rand.Rand) error {
 				g[k] = b64alpha[rng.Intn(len(b64alpha))]
 			}
 			mutated = string(g)
-		case "foreign":
-			// a cookie produced by another gateway instance (other keys)
+		case "foreign", "foreign-sameconfig":
+			// a cookie produced by another gateway instance: one with other configured keys, or (sameconfig) one started
+			// from the very same configuration - which is one that leaves the session keys to the gateway
 			cfg2 := i.Cfg
-			cfg2.KeyOverride = map[string]string{"sess": "ANOTHER-SESSION-KEY-0123456789-ab", "sessenc": "ANOTHER-SESSENC-KEY-0123456789-a"}
+			if s.Mut == "foreign" {
+				cfg2.KeyOverride = map[string]string{"sess": "ANOTHER-SESSION-KEY-0123456789-ab", "sessenc": "ANOTHER-SESSENC-KEY-0123456789-a"}
+			}
 			j, err := i.R.NewInst(cfg2)
 			if err != nil {
 				return err
